@@ -8,6 +8,7 @@ import (
 	"net"
 	"os"
 	"reflect"
+	"sort"
 	"strings"
 	"sync"
 	"testing"
@@ -220,7 +221,17 @@ func judge(r *mon.Rec, kind string, idx int, s subject, rng *rand.Rand) {
 		rec(nil)
 		r.Count("exhaustive_sequences", seqs)
 	}
-	r.Shape(s.desc+fmt.Sprint("/", n/10), s.nt)
+	// shape: the subject kind and the set of operation paths it offers (which reflects the option types it holds)
+	uniq := map[string]bool{}
+	for _, o := range base {
+		uniq[stripIdx(o.path)] = true
+	}
+	ps := make([]string, 0, len(uniq))
+	for p := range uniq {
+		ps = append(ps, p)
+	}
+	sort.Strings(ps)
+	r.Shape(s.desc+"/"+strings.Join(ps, ","), s.nt)
 	r.Count("operations_compared", n*5)
 	if r.NSamples() < 6 && n < 30 {
 		ps := []string{}
